@@ -24,6 +24,7 @@ All cases are plain JSON dicts.
 """
 from __future__ import annotations
 
+import gc
 import itertools
 import random
 
@@ -372,6 +373,8 @@ def _rect(rng, ragged=None):
         c0 = _sym_chunks(rng, n, ragged)
         if rng.random() < 0.2:
             break
+    if ragged is None and rng.random() < 0.2:
+        c1 = [m]  # one block along an axis (the derivations skip such an axis when they bump the block id)
     return _src(rng, [n, m], [c0, c1])
 
 
@@ -403,6 +406,22 @@ MULTI_SITE_RECT = {
     "(x@x.T)*(x@x.T).T": ["bin", "mul", ["mm", X, XT], ["T", ["mm", X, XT]]],
     "x.T.T*x+x": ["bin", "add", ["bin", "mul", ["T", XT], X], X],
 }
+V1, V0 = ["src", 1], ["src", 2]  # 1-d sources chunked like x's columns / rows
+BROADCAST = {
+    # sources with fewer blocks than the output (broadcast block maps) next to repeated reads
+    "x*x+row": ["bin", "add", ["bin", "mul", X, X], ["exp", V1, 0]],
+    "x+v": ["bin", "add", X, V1],
+    "x+col*row": ["bin", "add", X, ["bin", "mul", ["exp", V0, 1], ["exp", V1, 0]]],
+    "(x-row)*x+col": ["bin", "add", ["bin", "mul", ["bin", "sub", X, ["exp", V1, 0]], X], ["exp", V0, 1]],
+    "col*row+row": ["bin", "add", ["bin", "mul", ["exp", V0, 1], ["exp", V1, 0]], ["exp", V1, 0]],
+    "(x+row).T*col.T": ["bin", "mul", ["T", ["bin", "add", X, ["exp", V1, 0]]], ["T", ["exp", V0, 1]]],
+}
+
+
+def _with_vectors(rng, s):
+    """[x, v1, v0]: 1-d sources with the chunks of x's second / first axis"""
+    return [s, _src(rng, [s["shape"][1]], [s["chunks"][1]], mul=5, off=2, mod=13), _src(rng, [s["shape"][0]], [s["chunks"][0]], mul=7, off=1, mod=11)]
+
 
 
 def fused_grid(rng, full=False):
@@ -460,6 +479,13 @@ def fused_grid(rng, full=False):
         zs = _src(rng, s["shape"][::-1], s["chunks"][::-1], mul=5, off=2, mod=13)
         out.append(_case(rng, [s, zs] if "z" in name else [s], e, post=(None, "add1")[i % 2], grid=f"sites-rect/{name}"))
         i += 1
+    for name, e in BROADCAST.items():
+        srcs = _with_vectors(rng, _rect(rng, i % 2 == 0))
+        used = _json(e)
+        out.append(_case(rng, srcs if '["src", 2]' in used else srcs[:2], e, post=(None, "add1", "T")[i % 3], grid=f"broadcast/{name}"))
+        i += 1
+    spec = {"api": "da", "bid": True, "binfo": False, "deps": ["shape"], "pos": [], "kw": {"gain": 2}, "dkw": None}
+    out.append(_case(rng, _with_vectors(rng, _rect(rng, True))[:2], ["mb", spec, [BROADCAST["x*x+row"]]], post="add1", grid="mb-over-broadcast"))
     # broadcast maps of one 1-d source, a 3-d permutation, per-block functions on top of a multi-site expression
     n = rng.randint(4, 6)
     v = _src(rng, [n], [_sym_chunks(rng, n, True)])
@@ -536,6 +562,9 @@ def random_fused(rng):
             s = _rect(rng, ragged)
             srcs = [s, _src(rng, s["shape"][::-1], s["chunks"][::-1], mul=5, off=2, mod=13)]
             leaves = [X, X, ["T", Z], ["T", Z], ["sc", "mul", X, 2], ["T", XT], ["ones", 0]]
+            if rng.random() < 0.4:
+                srcs = _with_vectors(rng, s)
+                leaves = [X, X, X, ["exp", V1, 0], ["exp", V0, 1], V1, ["sc", "mul", X, 2], ["ones", 0]]
 
         def tree(d):
             if d <= 0 or rng.random() < 0.15:
@@ -545,11 +574,21 @@ def random_fused(rng):
             return ["bin", rng.choice(BINOPS), tree(d - 1), tree(d - 1)]
 
         e = tree(rng.randint(2, 3))
+        if '["src", 0]' not in _json(e):
+            e = ["bin", "add", e, X]  # source 0 gives the ones / full leaves their shape and the case its class
         if rng.random() < 0.2:
             e = ["mm", e, ["T", e if rng.random() < 0.5 else tree(1)]]
-        used1 = '["src", 1]' in _json(e)
+        used = _json(e)
+        nsrc = 3 if '["src", 2]' in used else 2 if '["src", 1]' in used else 1
         post = rng.choice((None, None, "add1", "sum0", "T"))
-        return _case(rng, srcs if used1 else srcs[:1], e, post=post, optimize=rng.random() < 0.9)
+        case = _case(rng, srcs[:nsrc], e, post=post, optimize=rng.random() < 0.9)
+        if rng.random() < 0.15:
+            # walked with the source / the bare expression under one shared `seen`
+            roots = ["y"] + rng.sample(["s0", "core"], rng.randint(1, 2))
+            if rng.random() < 0.5:
+                roots.reverse()
+            case.update(roots=roots, history=rng.choice(("group", "group-then-alone", "alone-then-group")))
+        return case
     # library literals: overlap / creation
     s = _rect(rng, ragged)
     n = rng.randint(6, 8)
@@ -604,8 +643,10 @@ def shrink_fused(case, still, max_iter=80):
             yield dict(c, post=None)
         for s in sub(c["expr"]):
             yield dict(c, expr=s)
-        if len(c["srcs"]) > 1 and '["src", 1]' not in _json(c["expr"]):
-            yield dict(c, srcs=c["srcs"][:1])
+        used = _json(c["expr"])
+        need = max([1] + [j + 1 for j in range(len(c["srcs"])) if '["src", %d]' % j in used])
+        if len(c["srcs"]) > need:
+            yield dict(c, srcs=c["srcs"][:need])
 
     progress = True
     while progress and it < max_iter:
@@ -631,7 +672,11 @@ CONSUMERS_1D = ("cumsum", "cumprod", "argmax", "argmin", "map_overlap", "sum", "
                 "map_blocks_bid", "concat_self", "reshape", "nanargmax")
 CONSUMERS_2D = ("cumsum", "cumsum1", "argmax0", "argmax1", "argmax", "map_overlap", "sum", "sum0", "add1", "T", "rechunk", "slice", "take", "map_blocks_bid", "matmul_T")
 LEGACY = ("cumsum", "argmax", "map_overlap")
-HOWS = ("from_array", "from_array", "from_array", "asarray_map_blocks", "from_delayed", "arange", "full")
+# creation functions / from_delayed with a reused name= hand back the FIRST array while it is alive (the expression instance is shared by
+# name): the dask graph itself then differs from NumPy (or construction raises) — outside these properties, noted; once the first array is
+# dead (create-walk mode) they are ordinary members of the stream
+HOWS = ("from_array", "from_array", "from_array", "from_array", "asarray_map_blocks", "asarray_map_blocks", "from_delayed", "full")
+HOWS_OUTSIDE = ("from_delayed", "full")
 
 
 def _named_array(how, name, spec, da_mode):
@@ -641,10 +686,9 @@ def _named_array(how, name, spec, da_mode):
 
     shape = tuple(spec["shape"])
     chunks = tuple(tuple(c) for c in spec["chunks"])
-    a = CN.src_data(shape, spec.get("mul", 3), spec.get("off", 1), spec.get("mod", 17)) + 1
-    if how == "arange":
-        a = np.arange(spec.get("off", 1), spec.get("off", 1) + shape[0], dtype=np.int64)
-    elif how == "full":
+    # distinct values in a scrambled order (at most 81 elements, 101 prime): arg-reductions have no ties to break
+    a = CN.src_data(shape, spec.get("mul", 3), spec.get("off", 1), 101) + 1
+    if how == "full":
         a = np.full(shape, spec.get("off", 1) + 2, dtype=np.int64)
     if not da_mode:
         return a
@@ -654,8 +698,6 @@ def _named_array(how, name, spec, da_mode):
         return da.from_array(a, chunks=chunks).map_blocks(CN._const, dtype="int64", name=name)
     if how == "from_delayed":
         return da.from_delayed(delayed(CN._const, pure=True)(a), shape, dtype="int64", name=name).rechunk(chunks)
-    if how == "arange":
-        return da.arange(spec.get("off", 1), spec.get("off", 1) + shape[0], chunks=chunks, dtype="int64", name=name)
     if how == "full":
         return da.full(shape, spec.get("off", 1) + 2, chunks=chunks, dtype="int64", name=name)
     raise ValueError(how)
@@ -753,9 +795,10 @@ def samename_grid(rng, tag):
     out.append(mk("from_array", [coarse, fine], LEGACY, optimize=False, grid="1d/unoptimized"))
     out.append(mk("from_array", [coarse, fine], LEGACY, mode="create-all-then-walk", grid="1d/create all, then walk"))
     out.append(mk("from_array", [coarse, fine], LEGACY, mode="create-all-then-walk-reversed", grid="1d/create all, walk last first"))
-    for how in HOWS[3:]:
-        out.append(mk(how, [coarse, fine], LEGACY + ("sum",), grid=f"{how}/coarse-first"))
-        out.append(mk(how, [fine, coarse], LEGACY, grid=f"{how}/fine-first"))
+    out.append(mk("asarray_map_blocks", [coarse, fine], LEGACY + ("sum", "add1"), grid="map_blocks(name=)/coarse-first"))
+    out.append(mk("asarray_map_blocks", [fine, coarse], LEGACY + ("take",), grid="map_blocks(name=)/fine-first"))
+    for how in HOWS_OUTSIDE:
+        out.append(mk(how, [a1(6, 3), a1(6, 2)], ("cumsum",), grid=f"{how}/coarse-first"))
     c2, f2 = _src(rng, [4, 6], [[2, 2], [3, 3]]), _src(rng, [5, 4], [[2, 2, 1], [1, 1, 2]])
     g2 = [CONSUMERS_2D[i:i + 4] for i in range(0, len(CONSUMERS_2D), 4)]
     for j, g in enumerate(g2):
@@ -766,7 +809,7 @@ def samename_grid(rng, tag):
 
 def random_samename(rng, tag, k):
     nd = rng.choice((1, 1, 2))
-    how = rng.choice(HOWS) if nd == 1 else rng.choice(("from_array", "from_array", "asarray_map_blocks", "full"))
+    how = rng.choice(HOWS)
     arrays = []
     for _ in range(rng.choice((2, 2, 3))):
         shape = [rng.randint(4, 9)] if nd == 1 else [rng.randint(3, 6), rng.randint(3, 6)]
@@ -850,6 +893,11 @@ def run_samename(ctx, case, exec_records, count=True, fidelity=False):
                     order.reverse()
             for i in order:
                 spec = case["arrays"][i]
+                if i not in made:
+                    # the collections of the previous array are dead: drop them now, so that name-keyed WEAK caches of the
+                    # library (lowering cache) behave the same in every run instead of depending on when the collector runs
+                    x = y = None
+                    gc.collect()
                 x = made[i] if i in made else _named_array(case["how"], case["name"], spec, True)
                 a = _named_array(case["how"], case["name"], spec, False)
                 for c in case["consumers"]:
